@@ -2,7 +2,7 @@
 import os
 
 from vlib import mirutil
-from vlib.facts import walk, peel, place_path, CheckError, REPO, lit_int
+from vlib.facts import walk, peel, place_path, CheckError, REPO, lit_int, sp_before
 from vlib.paths import paths, normal_paths
 from vlib.report import RuleResult
 from rules.nopanic import snippet, sites_of, const_val
@@ -188,6 +188,14 @@ def coupled_state(F):
 
         def branch_label(node):
             c = peel(node["cond"])
+            if c.get("k") == "Path" and c.get("res", {}).get("r") == "local":
+                # `let found = curr_idx < metadata.len(); .. if found { .. }`: the test is read through the (immutable) local,
+                # provided the cursor does not move between the test and its use
+                from vlib.facts import binding_site as _bs
+                _pat, scr_, _kind = _bs(fn["body"], c["res"]["hid"])
+                if scr_ is not None and _kind != "for" and "mut" not in str((_pat or {}).get("mode") or "").lower() \
+                        and not any(classify(y) == "MOVE" and sp_before(scr_, y) and sp_before(y, node) for y in walk(fn["body"]) if isinstance(y, dict) and y.get("sp")):
+                    c = peel(scr_)
             if c.get("k") == "Binary" and c["op"] == "<" and (place_path(c["a"]) or "").endswith("curr_idx"):
                 b = peel(c["b"])
                 if b.get("k") == "MethodCall" and b["method"] == "len" and (place_path(b["recv"]) or "").endswith("metadata"):
@@ -804,6 +812,8 @@ def skip_membership(F):
                 sub_search = in_search or node["method"] in SEARCH
                 sub_peek = peeked or (ahead(node["recv"]) is not None)
                 rec(node.get("args") or [], sub_search, sub_peek)
+                if isinstance(node.get("inlined"), dict):
+                    rec(node["inlined"], in_search, peeked)   # a private helper whose body was attached (vlib/canon.py)
                 return
             for kk, v in node.items():
                 if isinstance(v, (dict, list)):
